@@ -168,7 +168,7 @@ func (r *MMapReader) ReadNextAt(offset uint64) ([]byte, error) {
 
 		// TODO(thomas): we can make this more efficient without the double allocation, we can simply read from the pooled buf
 		headerByteReader := newChecksumByteReader(bytes.NewReader(headerBufPooled[:numRead]), headerBufPooledCrc)
-		payloadSizeUncompressed, payloadSizeCompressed, recordNil, err := readRecordHeaderV4(headerByteReader)
+		payloadSizeUncompressed, payloadSizeCompressed, recordNil, err := readRecordHeaderV4(headerByteReader, r.header.compressor != nil)
 		if err != nil {
 			return nil, fmt.Errorf("failed reading record header at offset %d in mmap reader for '%s': %w", offset, r.path, err)
 		}
